@@ -81,7 +81,7 @@ func blockIsReturn(b *ast.BlockStmt, val string) bool {
 	return b != nil && len(b.List) == 1 && isReturnBool(b.List[0], val)
 }
 
-func callName(e ast.Expr) (string, []ast.Expr, bool) {
+func censorCallName(e ast.Expr) (string, []ast.Expr, bool) {
 	c, ok := e.(*ast.CallExpr)
 	if !ok {
 		return "", nil, false
@@ -115,7 +115,7 @@ func stepsOf(list []ast.Stmt, loop string) (steps []cmpStep, final string, ok bo
 			}
 			// match = CALL(a, b) ; if !match { return false | if ESC(x) { return true }; return false }
 			if len(s.Lhs) == 1 && render(s.Lhs[0]) == "match" && len(s.Rhs) == 1 && i+1 < len(list) {
-				name, args, isCall := callName(s.Rhs[0])
+				name, args, isCall := censorCallName(s.Rhs[0])
 				ifs, isIf := list[i+1].(*ast.IfStmt)
 				if isCall && len(args) == 2 && isIf && render(ifs.Cond) == "!match" && ifs.Else == nil {
 					if blockIsReturn(ifs.Body, "false") {
@@ -125,7 +125,7 @@ func stepsOf(list []ast.Stmt, loop string) (steps []cmpStep, final string, ok bo
 					}
 					if len(ifs.Body.List) == 2 && isReturnBool(ifs.Body.List[1], "false") {
 						if esc, isEsc := ifs.Body.List[0].(*ast.IfStmt); isEsc && blockIsReturn(esc.Body, "true") && esc.Else == nil {
-							if en, eargs, isECall := callName(esc.Cond); isECall && len(eargs) == 1 {
+							if en, eargs, isECall := censorCallName(esc.Cond); isECall && len(eargs) == 1 {
 								steps = append(steps, cmpStep{kindOf("cmpEsc:" + en + ":" + normOperand(render(eargs[0]))), name, normOperand(render(args[0])), normOperand(render(args[1]))})
 								i++
 								continue
@@ -149,7 +149,7 @@ func stepsOf(list []ast.Stmt, loop string) (steps []cmpStep, final string, ok bo
 				continue
 			}
 			// if reflect.DeepEqual(pattern, X) { return true }
-			if name, args, isCall := callName(cond); isCall && name == "reflect.DeepEqual" && len(args) == 2 && blockIsReturn(s.Body, "true") {
+			if name, args, isCall := censorCallName(cond); isCall && name == "reflect.DeepEqual" && len(args) == 2 && blockIsReturn(s.Body, "true") {
 				steps = append(steps, cmpStep{kindOf("shortcut"), name, normOperand(render(args[0])), normOperand(render(args[1]))})
 				continue
 			}
@@ -157,20 +157,20 @@ func stepsOf(list []ast.Stmt, loop string) (steps []cmpStep, final string, ok bo
 				return nil, "", false
 			}
 			if u, isU := cond.(*ast.UnaryExpr); isU && u.Op == token.NOT {
-				if name, args, isCall := callName(u.X); isCall && len(args) == 2 {
+				if name, args, isCall := censorCallName(u.X); isCall && len(args) == 2 {
 					steps = append(steps, cmpStep{kindOf("cmp"), name, normOperand(render(args[0])), normOperand(render(args[1]))})
 					continue
 				}
 				return nil, "", false
 			}
-			if name, args, isCall := callName(cond); isCall && len(args) == 2 {
+			if name, args, isCall := censorCallName(cond); isCall && len(args) == 2 {
 				// `if areEqualX(a, b) { return false }` – the comparison is inverted
 				steps = append(steps, cmpStep{kindOf("cmpNeg"), name, normOperand(render(args[0])), normOperand(render(args[1]))})
 				continue
 			}
 			if be, isB := cond.(*ast.BinaryExpr); isB && be.Op == token.NEQ {
-				ln, la, lok := callName(be.X)
-				rn, ra, rok := callName(be.Y)
+				ln, la, lok := censorCallName(be.X)
+				rn, ra, rok := censorCallName(be.Y)
 				if lok && rok && ln == "len" && rn == "len" && len(la) == 1 && len(ra) == 1 {
 					steps = append(steps, cmpStep{kindOf("len"), "len", normOperand(render(la[0])), normOperand(render(ra[0]))})
 					continue
@@ -198,7 +198,7 @@ func stepsOf(list []ast.Stmt, loop string) (steps []cmpStep, final string, ok bo
 			if id, isID := s.Results[0].(*ast.Ident); isID && (id.Name == "true" || id.Name == "false") {
 				return steps, id.Name, true
 			}
-			if name, args, isCall := callName(s.Results[0]); isCall && len(args) == 2 {
+			if name, args, isCall := censorCallName(s.Results[0]); isCall && len(args) == 2 {
 				steps = append(steps, cmpStep{kindOf("cmp"), name, normOperand(render(args[0])), normOperand(render(args[1]))})
 				return steps, "true", true
 			}
@@ -381,7 +381,7 @@ func genCensorTable() {
 				if !ok || len(r.Results) != 1 {
 					return true
 				}
-				if n, _, isCall := callName(r.Results[0]); isCall {
+				if n, _, isCall := censorCallName(r.Results[0]); isCall {
 					disp = append(disp, fmt.Sprintf("(%q, %q)", strings.TrimPrefix(strings.TrimPrefix(render(cc.List[0]), "*"), "sqlparser."), n))
 				}
 				return true
@@ -461,11 +461,11 @@ func genCensorTable() {
 								for _, t := range b.Body.List {
 									switch u := t.(type) {
 									case *ast.ExprStmt:
-										if n, args, isCall := callName(u.X); isCall && strings.HasSuffix(n, ".CheckQuery") {
+										if n, args, isCall := censorCallName(u.X); isCall && strings.HasSuffix(n, ".CheckQuery") {
 											call = argList(args)
 										}
 									case *ast.AssignStmt:
-										if n, args, isCall := callName(u.Rhs[0]); isCall && strings.HasSuffix(n, ".CheckQuery") {
+										if n, args, isCall := censorCallName(u.Rhs[0]); isCall && strings.HasSuffix(n, ".CheckQuery") {
 											call = argList(args)
 										}
 									case *ast.IfStmt:
@@ -493,7 +493,7 @@ func genCensorTable() {
 							fail("%s: HandleQuery loop: unexpected if `%s`", implRel, c)
 						}
 					case *ast.AssignStmt:
-						if n, args, isCall := callName(b.Rhs[0]); isCall && n == "handler.CheckQuery" {
+						if n, args, isCall := censorCallName(b.Rhs[0]); isCall && n == "handler.CheckQuery" {
 							loop = append(loop, fmt.Sprintf("(%q, %q, %q)", "default", argList(args), "call"))
 						} else {
 							fail("%s: HandleQuery loop: unexpected assignment", implRel)
@@ -539,7 +539,7 @@ func genCensorTable() {
 					fail("%s: CheckQuery: unexpected body of `%s`", h.rel, c)
 					continue
 				}
-				n, args, _ := callName(as.Rhs[0])
+				n, args, _ := censorCallName(as.Rhs[0])
 				// which result component is tested
 				comp := -1
 				for i, l := range as.Lhs {
